@@ -514,7 +514,7 @@ VF_DNS_SNAP(hdr, msgbuf_size)
 VF_DNS_SNAP_QD(hdr, msgbuf_size)
 __CPROVER_requires(name == NULL || name_len == 0 || __CPROVER_is_fresh(name, name_len))
 __CPROVER_requires(VF_OUT_OPT(msg_size_ret, size_t))
-__CPROVER_assigns(hdr != NULL: __CPROVER_object_upto((uint8_t *)hdr, msgbuf_size))
+__CPROVER_assigns(hdr != NULL: __CPROVER_object_whole(hdr))
 __CPROVER_assigns(msg_size_ret != NULL: *msg_size_ret)
 __CPROVER_ensures(VF_RV == 0 || VF_RV == EINVAL || VF_RV == EBADMSG || VF_RV == EOVERFLOW || VF_RV == EOPNOTSUPP)
 __CPROVER_ensures(hdr == NULL ==> VF_RV == EINVAL)
@@ -548,7 +548,7 @@ VF_DNS_SNAP(hdr, msgbuf_size)
 __CPROVER_requires(name == NULL || name_len == 0 || __CPROVER_is_fresh(name, name_len))
 __CPROVER_requires(data_size == 0 || __CPROVER_is_fresh(data, data_size))
 __CPROVER_requires(VF_OUT_OPT(rr_size, size_t))
-__CPROVER_assigns(hdr != NULL: __CPROVER_object_upto((uint8_t *)hdr, msgbuf_size))
+__CPROVER_assigns(hdr != NULL: __CPROVER_object_whole(hdr))
 __CPROVER_assigns(rr_size != NULL: *rr_size)
 __CPROVER_ensures(VF_RV == 0 || VF_RV == EINVAL || VF_RV == EBADMSG || VF_RV == EOVERFLOW || VF_RV == EOPNOTSUPP)
 __CPROVER_ensures(hdr == NULL ==> VF_RV == EINVAL)
@@ -583,7 +583,7 @@ __CPROVER_requires(VF_DNS_BUF(hdr, msgbuf_size))
 VF_DNS_SNAP(hdr, msgbuf_size)
 __CPROVER_requires(data == NULL || data_size == 0 || __CPROVER_is_fresh(data, data_size))
 __CPROVER_requires(VF_OUT_OPT(rr_size, size_t))
-__CPROVER_assigns(hdr != NULL: __CPROVER_object_upto((uint8_t *)hdr, msgbuf_size))
+__CPROVER_assigns(hdr != NULL: __CPROVER_object_whole(hdr))
 __CPROVER_assigns(rr_size != NULL: *rr_size)
 __CPROVER_ensures(VF_RV == 0 || VF_RV == EINVAL || VF_RV == EBADMSG || VF_RV == EOVERFLOW)
 __CPROVER_ensures((hdr == NULL || (data == NULL && data_size != 0)) ==> VF_RV == EINVAL)
